@@ -420,3 +420,10 @@ Proof.
     eapply steps_trans; [|apply IH; exact H].
     eapply steps_step; [apply steps_refl|]. econstructor. exact Et.
 Qed.
+
+(* the caller never reads an answer backed by an unmapped header *)
+Lemma no_dangling s ts h : reachable false s ts -> ~ In (Dangling h) ts.
+Proof.
+  intros HR Hin. apply reachable_inv in HR.
+  exact (Forall_In_pc _ _ _ (inv_pc _ _ HR) Hin).
+Qed.
